@@ -19,9 +19,13 @@ B1  the complete state graphs (K and W, 2 lanes x 2 remotes) are dumped; a trans
 B2  every execution that differs from M, every execution in which M itself needs a finding's excuse, and a
     sample of the others are validated by TLC against Trace_Links.tla (P): rejection = VIOLATION, acceptance
     through a deviation rule of an open finding = KNOWN-FINDING.
-+   thorough: counters on real threads (sum of snapshots + residue = sum of increments).
+    Level R: scripts derived from TLC's write-task behaviours (and two that spell out the findings' signatures)
+    are run against the WHOLE agent runtime (AgentRouteTask::run_agent with real NodeReporting, a fake agent that
+    only owns the lane channels, remotes speaking the envelope protocol, paused clock, sleep(1ns) as quiescence
+    barrier); what the introspection readers report is validated against Trace_Links.tla (P) only.
++   counters on real threads (sum of snapshots + residue = sum of increments; longer in thorough).
 """
-import json, os, random, concurrent.futures as cf
+import json, os, random, time, concurrent.futures as cf
 from vlib import core
 from vlib import replay as rp
 
@@ -154,18 +158,104 @@ def norm_step(k, d):
 
 def to_trace(case, result):
     cfg = case["cfg"]
-    lv = cfg["level"]
+    lv = "W" if cfg["level"] == "R" else cfg["level"]      # the whole runtime is judged by the write-task rules of P
     ev = [{"k": "reset", "lv": lv, "nl": cfg["nl"], "nr": cfg["nr"], "agg": 1 if cfg.get("agg", True) else 0}]
     obs = result.get("obs", [])
     for i, a in enumerate(case["acts"]):
         if i >= len(obs):
             break
         e = {k: a[k] for k in ("k", "l", "r", "t", "sn") if k in a}
+        if obs[i].get("skipped"):
+            e["k"] = "nop"          # the remote could not send the request (it is not attached)
         e["s"] = obs[i].get("s", [])
         if lv == "W":
             e["att"] = obs[i].get("att", 0)
         ev.append(e)
     return ev
+
+
+# two scripts that spell the findings' signatures out at level R (remote ids / lanes as in known_findings/C20.json)
+R_SIGNATURES = [
+    [{"k": "att", "r": 1}, {"k": "link", "l": 1, "r": 1}, {"k": "cmd", "l": 1, "r": 1}, {"k": "ev", "l": 1, "t": 0},
+     {"k": "close", "r": 1}, {"k": "ev", "l": 1, "t": 0}, {"k": "att", "r": 2}, {"k": "link", "l": 1, "r": 2},
+     {"k": "ev", "l": 1, "t": 0}, {"k": "unlink", "l": 1, "r": 2}],
+    [{"k": "att", "r": 1}, {"k": "sync", "l": 2, "r": 1}, {"k": "close", "r": 1}, {"k": "unk", "r": 1},
+     {"k": "ev", "l": 2, "t": 1}, {"k": "ev", "l": 2, "t": 0}, {"k": "tick"}, {"k": "att", "r": 2}, {"k": "tick"}],
+]
+
+
+def r_script(path, nl, nr, rng):
+    """A script for the whole runtime from a behaviour of M at level W: the same environment actions, sent as
+    real envelopes / lane responses (lane failures cannot be provoked from outside and are left out; a prune
+    becomes the passing of the prune delay; a command needs a sender)."""
+    acts = [{"k": "lane", "l": l} for l in range(1, nl + 1)]
+    att = 0
+    for a in path:
+        k = a["k"]
+        if k in ("lane", "fail"):
+            pass
+        elif k == "prune":
+            acts.append({"k": "tick"})
+        elif k == "cmd" and "r" in a:
+            acts.append(dict(a))
+        elif k == "cmd":
+            rs = [r for r in range(1, nr + 1) if att & (1 << (r - 1))]
+            if rs:
+                acts.append({"k": "cmd", "l": a["l"], "r": rng.choice(rs)})
+        elif k == "stop":
+            acts.append({"k": "stop", "sn": 0})
+            break
+        else:
+            b = {x: a[x] for x in ("k", "l", "r", "t") if x in a}
+            if rng.random() < 0.15:
+                b["sn"] = rng.randrange(1 << (nl + 1))
+            acts.append(b)
+            if k == "ev" and a.get("t", 0) != 0 and rng.random() < 0.3:
+                acts.insert(len(acts) - 1, {"k": "sync", "l": a["l"], "r": a["t"]})
+        att = a.get("att", att)
+    return acts
+
+
+def run_r_level(out, wd, pb, paths, nl, nr, rng, stats, findings_text, tag):
+    cases = [{"id": "%s.%d" % (tag, i), "cfg": {"level": "R", "nl": nl, "nr": nr, "agg": True}, "acts": r_script(p, nl, nr, rng)}
+             for i, p in enumerate(paths)]
+    cases = [c for c in cases if len(c["acts"]) > nl + 2]
+    if not cases:
+        return
+    results = rp.run_cases("h_runtime", "links", cases, wd, tag=tag, input_keys=None, strip=False)
+    ok_items = []
+    for c, r in zip(cases, results):
+        stats["r_cases"] += 1
+        stats["r_steps"] += len(c["acts"])
+        if r.get("panic"):
+            if str(r["panic"]).startswith("harness:"):
+                raise core.ToolError("harness: %s (case %s)" % (r["panic"], c["id"]))
+            out.violation("panic in the agent runtime (%s case %s): %s" % (tag, c["id"], r["panic"]),
+                          {"component": "links", "case": c, "observed": r})
+            stats["rejected"] += 1
+            continue
+        if "panicked" in r.get("end", ""):
+            out.violation("%s case %s: %s" % (tag, c["id"], r["end"]), {"component": "links", "case": c, "observed": r})
+            stats["rejected"] += 1
+            continue
+        if r.get("end") != "ok":
+            stats["r_not_stopped"] += 1
+        ok_items.append((c, r))
+    for (c, r), v in zip(ok_items, pb.validate(ok_items)):
+        if v is None:
+            stats["unexamined"] += 1
+            continue
+        stats["p_validated"] += 1
+        if v["accepted"]:
+            stats["r_accepted"] += 1
+            for f in v["kf"]:
+                stats["r_kf_hits"][f] = stats["r_kf_hits"].get(f, 0) + 1
+                stats["kf_hits"][f] = stats["kf_hits"].get(f, 0) + 1
+                out.known_finding(findings_text[f])
+        else:
+            stats["rejected"] += 1
+            out.violation("whole agent runtime, %s case %s: %s" % (tag, c["id"], v["detail"]),
+                          {"component": "links", "case": c, "observed": r})
 
 
 class PBatch:
@@ -293,6 +383,67 @@ def run_group(out, tag, cases, wd, pb, openf, stats, findings_text, sample_every
                 tag, c["id"], v["detail"]), {"component": "links", "case": c, "observed": r})
 
 
+def cover(g, rng, max_len=120, hop=6):
+    """Paths from the initial state that together take every edge of the graph: follow uncovered edges;
+    when the current state has none left, walk to the nearest state that has (bounded BFS); start a new path
+    when the bound or a dead end is reached."""
+    g.shortest_paths()
+    unc = {s: list(range(len(g.succ[s]))) for s in g.succ if s in g.parent}
+    for s in unc:
+        rng.shuffle(unc[s])
+    remaining = sum(len(v) for v in unc.values())
+    order = sorted((s for s in unc), key=lambda s: len(g.path_to(s)))
+    idx = 0
+    paths = []
+    while remaining > 0:
+        while idx < len(order) and not unc.get(order[idx]):
+            idx += 1
+        if idx >= len(order):
+            break
+        cur = order[idx]
+        acts = list(g.path_to(cur))
+        while len(acts) < max_len:
+            u = unc.get(cur)
+            if u:
+                a, t = g.succ[cur][u.pop()]
+                remaining -= 1
+                acts.append(a)
+                cur = t
+                continue
+            # bounded BFS to the nearest state with uncovered edges
+            prev = {cur: None}
+            frontier = [cur]
+            found = None
+            for _ in range(hop):
+                nxt = []
+                for s in frontier:
+                    for (a, t) in g.succ.get(s, ()):
+                        if t not in prev:
+                            prev[t] = (s, a)
+                            if unc.get(t):
+                                found = t
+                                break
+                            nxt.append(t)
+                    if found:
+                        break
+                if found or not nxt:
+                    break
+                frontier = nxt
+            if not found:
+                break
+            route = []
+            n = found
+            while prev[n] is not None:
+                s, a = prev[n]
+                route.append(a)
+                n = s
+            route.reverse()
+            acts += route
+            cur = found
+        paths.append(acts)
+    return paths, g.n_edges - remaining
+
+
 def mk_cases(prefix, cfg, paths):
     return [{"id": "%s.%d" % (prefix, i), "cfg": cfg, "acts": p} for i, p in enumerate(paths) if p]
 
@@ -302,6 +453,7 @@ def mk_cases(prefix, cfg, paths):
 def run(tier, out):
     rng = random.Random(core.seed())
     quick = tier == "quick"
+    t_start = time.time()
     wd = core.workdir(PROP)
     core.build_harness("h_runtime", "links")
     variant = probe(wd)
@@ -319,7 +471,7 @@ def run(tier, out):
 
     # ---- B3 + graph dumps, in parallel (<= 4 TLC workers in total)
     jobs = {}
-    big_k = (3, 2) if quick else (3, 3)
+    big_k = (2, 3) if quick else (3, 3)
     with cf.ThreadPoolExecutor(max_workers=3 if quick else 2) as ex:
         jobs["bigK"] = ex.submit(job_check, wd, "bigK", consts("K", big_k[0], big_k[1], variant, needed), False,
                                  2, False, False)
@@ -344,6 +496,7 @@ def run(tier, out):
             jobs["fixK"] = ex.submit(job_check, wd, "fixK", consts("K", 2, 2, repaired, set()), False, 1, True)
             jobs["fixW"] = ex.submit(job_check, wd, "fixW", consts("W", 2, 2, repaired, set()), False, 1, True)
         if not quick:
+            jobs["bigK2"] = ex.submit(job_check, wd, "bigK2", consts("K", 3, 2, variant, needed), False, 2, False, False)
             jobs["bigW"] = ex.submit(job_check, wd, "bigW", consts("W", 3, 2, variant, needed), False, 2, False, False)
             jobs["bigW2"] = ex.submit(job_check, wd, "bigW2", consts("W", 2, 3, variant, needed), False, 2, False, False)
             jobs["cntBig"] = ex.submit(job_counters, wd, "cntBig",
@@ -351,6 +504,7 @@ def run(tier, out):
             jobs["cntLive"] = ex.submit(job_counters, wd, "cntLive", cnt, "FairSpec", ("Termination",), 1)
             jobs["cntSat"] = ex.submit(job_counters, wd, "cntSat", dict(cnt, Cap=3))
     R = {k: f.result() for k, f in jobs.items()}
+    t_tlc = time.time() - t_start
 
     tlc_stats = {}
     cov = {}
@@ -380,14 +534,16 @@ def run(tier, out):
 
     # ---- B1/B2: replay
     pb = PBatch(wd, openf)
-    stats = dict(unexamined=0, excused_without_deviation=0, cases=0, steps=0, conform=0, drift=0, rejected=0, known=0, p_validated=0, excused_by_model=0,
+    stats = dict(r_cases=0, r_steps=0, r_accepted=0, r_not_stopped=0, r_kf_hits={}, unexamined=0, excused_without_deviation=0, cases=0, steps=0, conform=0, drift=0, rejected=0, known=0, p_validated=0, excused_by_model=0,
                  excused_cap=150 if quick else 1500, kf_hits={}, kf_samples={})
     graph_edges = 0
+    covered_edges = 0
     for key, level, agg in (("dumpK", "K", True), ("dumpK0", "K", False), ("dumpW", "W", True)):
         r = R[key]
         g = core.Graph(r.tagged["EDGE"], init_views=r.tagged["INIT"])
         graph_edges += g.n_edges
-        paths = g.covering_paths(extend=3 if quick else 8, rng=rng)
+        paths, nc = cover(g, rng)
+        covered_edges += nc
         paths += g.random_walks(150 if quick else 3000, 16 if quick else 30, rng)
         cfg = {"level": level, "nl": 2, "nr": 2, "agg": agg}
         cases = mk_cases(key, cfg, paths)
@@ -397,6 +553,7 @@ def run(tier, out):
         core.log("[C20] %s: %d states %d edges -> %d cases; so far conform=%d drift=%d rejected=%d known=%d" % (
             key, r.distinct, g.n_edges, len(cases), stats["conform"], stats["drift"], stats["rejected"], stats["known"]))
         if key == "dumpW":
+            w_walks = [p for p in paths[-(150 if quick else 3000):] if len(p) >= 6]
             out.sample({"level": "W", "calls_with_expected_outputs": paths[len(paths) // 2][:6]})
         if key == "dumpK":
             out.sample({"level": "K", "calls_with_expected_outputs": paths[len(paths) // 3][:6]})
@@ -416,6 +573,17 @@ def run(tier, out):
         core.log("[C20] %s: %d simulated behaviours (3x3) -> %d cases; so far conform=%d drift=%d rejected=%d known=%d" % (
             key, len(uniq), len(cases), stats["conform"], stats["drift"], stats["rejected"], stats["known"]))
 
+    # ---- B2 on the whole runtime (level R): AgentRouteTask + NodeReporting + fake agent, judged by P only
+    t_r0 = time.time()
+    w_paths = [p for p in R["simW"].tagged["REPLAY"] if len(p) >= 6]
+    rng.shuffle(w_paths)
+    run_r_level(out, wd, pb, [list(x) for x in R_SIGNATURES], 2, 2, rng, stats, findings_text, "rsig")
+    run_r_level(out, wd, pb, w_paths[: 120 if quick else 2500], 3, 3, rng, stats, findings_text, "rsim")
+    run_r_level(out, wd, pb, w_walks[: 80 if quick else 1500], 2, 2, rng, stats, findings_text, "rwalk")
+    t_r = time.time() - t_r0
+    core.log("[C20] level R (whole runtime): %d scripts, %d steps, accepted by P %d, findings hit %s" % (
+        stats["r_cases"], stats["r_steps"], stats["r_accepted"], stats["r_kf_hits"]))
+
     # a finding that is listed but no longer observed: say so (nothing is suppressed by it)
     for f in sorted(openf - set(stats["kf_hits"])):
         out.notes.append("open finding %s was not observed on this tree" % f)
@@ -423,12 +591,17 @@ def run(tier, out):
     stress(out, rng, 6 if quick else 60, 20000 if quick else 300000)
 
     out.add(states=states, transitions=transitions,
-            traces_validated_against_impl=stats["cases"],
+            traces_validated_against_impl=stats["cases"] + stats["r_cases"],
+            whole_runtime_scripts=stats["r_cases"], whole_runtime_steps=stats["r_steps"],
+            whole_runtime_accepted_by_P=stats["r_accepted"], whole_runtime_finding_hits=stats["r_kf_hits"],
+            whole_runtime_not_stopped_cleanly=stats["r_not_stopped"],
             replayed_calls=stats["steps"], conform_to_M=stats["conform"], model_drift=stats["drift"],
             p_rejected=stats["rejected"], unexamined_after_reject_cap=stats["unexamined"], p_validated_by_tlc=stats["p_validated"], p_trace_events=pb.events,
             p_tlc_runs=pb.n, excused_accepted_by_model_equivalence=stats["excused_by_model"],
-            graph_edges_replayed=graph_edges, known_finding_hits=stats["kf_hits"], known_finding_samples=stats["kf_samples"],
+            graph_edges=graph_edges, graph_edges_covered_by_replay=covered_edges, known_finding_hits=stats["kf_hits"], known_finding_samples=stats["kf_samples"],
             model_variant=variant, tlc=tlc_stats,
+            phase_wall_s={"tlc_model_checking": round(t_tlc, 1), "replay_K_W": round(t_r0 - t_start - t_tlc, 1),
+                          "whole_runtime": round(t_r, 1)},
             action_coverage={a: {"distinct": d, "taken": t} for a, (d, t) in sorted(cov.items())},
             actions_never_taken=never, exhaustive=True,
             rule="B3: complete state spaces of Links.tla (K and W, scopes in `tlc`), P as action property on every "
